@@ -198,6 +198,56 @@ def signed_md(signed: bool, wrapper: bool, has_cert: bool, outcome: int, twice: 
     return ok, True, "served=%r exc=%r calls=%d" % (served, exc, _Sec.calls)
 
 
+# ---- whole documents through parse(): document-level and entity-level validUntil ---------------
+def _doc(doc_vu, ent_vu, wrapper):
+    ed = _idp(A, LOC1, (True, False, False), ent_vu)
+    if wrapper:
+        top = md.EntitiesDescriptor(entity_descriptor=[ed, _sp(B)], name="fed", valid_until=doc_vu)
+    else:
+        top = ed
+    return "%s" % top
+
+
+_DOC_TOK, _ENT_TOK = "2011-01-01T00:00:00Z", "2012-01-01T00:00:00Z"
+VDOCS = {(d, e, w): _doc(_DOC_TOK if d else None, _ENT_TOK if e else None, w) for d in (False, True) for e in (False, True) for w in (False, True)}
+
+
+def md_document(has_doc_vu: bool, doc_vu: int, has_ent_vu: bool, ent_vu: int, wrapper: bool, now: int):
+    """A metadata *document* (EntitiesDescriptor or single EntityDescriptor) really parsed by
+    InMemoryMetaData.parse: an entity is served iff neither its own validUntil nor the enclosing
+    document's has passed."""
+    from veriflib import timemodel
+    from veriflib.boot import concrete, REPLAY
+    has_doc_vu, has_ent_vu, wrapper = concrete(has_doc_vu), concrete(has_ent_vu), concrete(wrapper)
+    if REPLAY:
+        text = _doc(timemodel.real_stamp(doc_vu) if has_doc_vu else None, timemodel.real_stamp(ent_vu) if has_ent_vu else None, wrapper)
+        timemodel.set_clock(now, None)
+    else:
+        text = VDOCS[(has_doc_vu, has_ent_vu, wrapper)]
+        timemodel.set_clock(now, {_DOC_TOK: doc_vu, _ENT_TOK: ent_vu})
+    m = InMemoryMetaData(None, "")
+    raised = False
+    try:
+        m.parse(text)
+    except Exception:
+        raised = True
+    STORE.metadata = {"s1": m}
+    served = None
+    try:
+        served = STORE.single_sign_on_service(A, BINDING_HTTP_REDIRECT)
+    except Exception:
+        served = None
+    doc_live = (not (has_doc_vu and wrapper)) | (now <= doc_vu)
+    ent_live = (not has_ent_vu) | (now <= ent_vu)
+    if doc_live & ent_live:
+        ok = (served is not None) and (len(served) == 1) and (served[0]["location"] == LOC1[0])
+    else:
+        ok = (served is None) and (A not in STORE.keys())
+    if not doc_live:
+        ok = ok and (B not in STORE.keys())
+    return ok, True, "served=%r raised=%s" % (served, raised)
+
+
 # ---- configuration -> generated metadata -> store ----------------------------------------------
 from saml2_tophat.config import SPConfig          # noqa: E402
 from saml2_tophat.metadata import entity_descriptor   # noqa: E402
@@ -269,6 +319,13 @@ CONDITIONS = [
          pre=["0 <= outcome <= 2"], partitions={"quick": [{"twice": False}]}, timeout={"quick": 600, "thorough": 1200}, path_timeout=60,
          functions=["mdstore.MetadataStore.load('remote')", "mdstore.MetaDataExtern.load", "mdstore.InMemoryMetaData.parse_and_check_signature/parse/signed"],
          bounds="document signed/unsigned x EntitiesDescriptor/EntityDescriptor root x verification certificate configured or not x verification answers True / False / raises"),
+    Cond(name="md_document", fn="md_document",
+         params=[("has_doc_vu", "bool"), ("doc_vu", "int"), ("has_ent_vu", "bool"), ("ent_vu", "int"), ("wrapper", "bool"), ("now", "int")],
+         pre=["0 < doc_vu <= 8589934592", "0 < ent_vu <= 8589934592", "0 < now <= 8589934592"],
+         partitions={"quick": [{"wrapper": w, "has_doc_vu": d} for w in (False, True) for d in (False, True)]},
+         timeout={"quick": 600, "thorough": 1200}, path_timeout=60,
+         functions=["mdstore.InMemoryMetaData.parse", "mdstore.InMemoryMetaData.do_entity_descriptor", "validate.valid_instance", "time_util.valid"],
+         bounds="EntitiesDescriptor (two entities) or single EntityDescriptor, really parsed; document-level and entity-level validUntil each absent or a symbolic instant vs a symbolic clock in (0, 2^33]"),
     Cond(name="roundtrip", fn="roundtrip", params=[("post", "bool"), ("redirect", "bool"), ("enc", "bool"), ("qb", "int")],
          pre=["0 <= qb <= 2"], partitions={"quick": [{}]}, timeout={"quick": 600, "thorough": 1200}, path_timeout=60,
          functions=["metadata.entity_descriptor + serialise/parse (at import, per configuration)", "mdstore.InMemoryMetaData.do_entity_descriptor",
